@@ -46,7 +46,7 @@ Definition pool_get (prof : profile) (p : pool) (r : N) : res str :=
        | Debug => if (0 <? r) && (r <=? MAX_STRING_REF) then Ok tt else Panic
        | Release => Ok tt
        end ;;
-  match nth_opt (p_strings p) (N.to_nat (r - 1)) with
+  match nth_opt_N (p_strings p) (r - 1) with
   | Some (s, _) => Ok s
   | None => Ok []
   end.
@@ -60,7 +60,8 @@ Fixpoint incref_scan (prof : profile) (l : list (str * N)) (s : str) (idx : N)
   | (t, rc) :: r =>
       if rc =? 0 then
         match prof, t with
-        | Debug, _ :: _ => Panic                       (* debug_assert_eq!(st, "") *)
+        | Debug, _ :: _ =>                             (* debug_assert_eq!(st, ""), if the source still has it *)
+            if POOL_INCREF_ASSERTS_EMPTY then Panic else Ok (Some ((s, 1) :: r, idx))
         | _, _ => Ok (Some ((s, 1) :: r, idx))
         end
       else if str_eqb t s && (rc <? 65535) then Ok (Some ((t, rc + 1) :: r, idx))
@@ -86,16 +87,28 @@ Fixpoint decref_at (l : list (str * N)) (i : nat) : option (list (str * N)) :=
   | (t, rc) :: r, O => if rc =? 0 then None else Some ((if rc =? 1 then [] else t, rc - 1) :: r)
   | e :: r, S i' => option_map (cons e) (decref_at r i')
   end.
-(* decref: panics on an invalid reference or a zero refcount *)
+Definition decref_at_N (l : list (str * N)) (n : N) : option (list (str * N)) :=
+  if nlen l <=? n then None else decref_at l (N.to_nat n).
+Lemma decref_at_beyond : forall l i, (length l <= i)%nat -> decref_at l i = None.
+Proof.
+  induction l as [|[t rc] l IH]; intros i H; [reflexivity|]. destruct i; cbn [length] in H; [lia|].
+  cbn [decref_at]. rewrite IH by lia. reflexivity.
+Qed.
+Lemma decref_at_N_eq l n : decref_at_N l n = decref_at l (N.to_nat n).
+Proof.
+  unfold decref_at_N, nlen. destruct (N.of_nat (length l) <=? n) eqn:E; [|reflexivity].
+  apply N.leb_le in E. symmetry. apply decref_at_beyond. lia.
+Qed.
+(* decref: on an invalid reference or a zero refcount it panics or (since the repair) returns without a change *)
 Definition pool_decref (prof : profile) (p : pool) (r : N) : res pool :=
   _ <- match prof with
        | Debug => if (0 <? r) && (r <=? MAX_STRING_REF) then Ok tt else Panic
        | Release => Ok tt
        end ;;
   if r =? 0 then Panic
-  else match decref_at (p_strings p) (N.to_nat (r - 1)) with
+  else match decref_at_N (p_strings p) (r - 1) with
        | Some l => Ok (mkpool (p_cp p) l (p_long p) true)
-       | None => Panic
+       | None => if POOL_DECREF_PANICS then Panic else Ok p
        end.
 
 (* ---- serialisation ------------------------------------------------------------------ *)
@@ -174,7 +187,7 @@ Fixpoint build_strings (cp : codepage) (es : list (N * N)) (data : bytes) : res 
   match es with
   | [] => Ok []
   | (len, rc) :: r =>
-      match take_bytes (N.to_nat len) data with
+      match take_bytes_N len data with
       | None => Err
       | Some (h, t) =>
           match cp_decode cp h with
